@@ -194,6 +194,24 @@ Proof.
 Qed.
 End GV.
 
+(* what the index holds for key k, with the whole record it points at (GC moves records, it never alters them) *)
+Definition absr (hf : bytes -> N) (b : bucket) (k : bytes) : option (drec * Z * N) :=
+  match tree_get_slot b (hf k) with
+  | Some s => match log_find b (s_pos s) with Some r => Some (r, s_ver s, s_vh s) | None => None end
+  | None => None
+  end.
+Lemma abs_of_absr hf b b' k : absr hf b k = absr hf b' k -> abs hf b k = abs hf b' k.
+Proof.
+  unfold absr, abs. destruct (tree_get_slot b (hf k)) as [s|]; destruct (tree_get_slot b' (hf k)) as [s'|];
+    try destruct (log_find b (s_pos s)); try destruct (log_find b' (s_pos s')); intros H; try discriminate; try reflexivity.
+  injection H as -> -> _. reflexivity.
+Qed.
+Lemma absr_core hf b b' k : core b = core b' -> absr hf b k = absr hf b' k.
+Proof.
+  intros H. unfold absr. rewrite (core_tree b b' _ H). destruct (tree_get_slot b' (hf k)); [|reflexivity].
+  now rewrite (log_find_core b b' _ H).
+Qed.
+
 Section GV2.
 Variable cf : cfg.
 Variable hf : bytes -> N.
@@ -226,7 +244,7 @@ Definition GI (st : gcst) (src : nat) (R : list (N * drec)) : Prop :=
   (forall c e, (c < H0)%nat -> In e (k_disk (chunk_at b c)) -> rend e <= c_filemax cf /\ In (d_key (snd e)) K) /\
   IOK hf K b /\
   (forall h s, tree_get_slot b h = Some s -> SlotP b D W src R h s) /\
-  (forall k, In k K -> abs hf b k = abs hf b0 k).
+  (forall k, In k K -> absr hf b k = absr hf b0 k).
 
 Lemma log_find_gchunk b p : gchunk (chunk_at b (p_chunk p)) -> log_find b p = find_off (k_disk (chunk_at b (p_chunk p))) (p_off p).
 Proof. intros (Hw & _). unfold log_find, all_recs. now rewrite Hw, app_nil_r. Qed.
@@ -340,7 +358,7 @@ Proof.
       rewrite Hkn, (proj1 (G4 (S D) HSD)) in L. discriminate.
     + left. split; lia.
     + right. right. split; assumption.
-  - intros k Hk. rewrite <- (G16 k Hk). unfold abs.
+  - intros k Hk. rewrite <- (G16 k Hk). unfold absr.
     change (tree_get_slot b3 (hf k)) with (tree_get_slot b2 (hf k)). rewrite (core_tree b2 b1 (hf k) Hcore).
     change (tree_get_slot b1 (hf k)) with (tree_get_slot b (hf k)).
     destruct (tree_get_slot b (hf k)) as [s|] eqn:Es; [|reflexivity].
@@ -438,10 +456,10 @@ Proof.
     + rewrite Htree3 in Hs' by exact Hne. destruct (G15 h' s' Hs') as (r0 & L & A1 & A2 & A3 & A4 & A5 & P).
       assert (Hnp : s_pos s' <> mkPos src off) by (intros E; apply Hne; now apply (HU h' s')).
       destruct (Hprot _ r0 L P Hnp) as [L2 P2]. exists r0. repeat (split; [assumption|]). exact P2.
-  - intros k Hk. rewrite <- (G16 k Hk). unfold abs. rewrite Htree4.
+  - intros k Hk. rewrite <- (G16 k Hk). unfold absr. rewrite Htree4.
     destruct (N.eq_dec (hf k) h) as [E|Hne].
     + rewrite E. unfold b3. destruct (tree_get_slot b h) as [s|] eqn:Es; [|change (tree_get_slot b2 h) with (tree_get_slot b h); now rewrite Es].
-      rewrite tree_put_same. cbn [s_pos s_ver]. rewrite Hlog4, Hlog_new. rewrite (Hslot s eq_refl), Hlog_e. reflexivity.
+      rewrite tree_put_same. cbn [s_pos s_ver s_vh]. rewrite Hlog4, Hlog_new. rewrite (Hslot s eq_refl), Hlog_e. reflexivity.
     + rewrite Htree3 by exact Hne. destruct (tree_get_slot b (hf k)) as [s|] eqn:Es; [|reflexivity].
       destruct (G15 _ s Es) as (r0 & L & _ & _ & _ & _ & _ & P).
       assert (Hnp : s_pos s <> mkPos src off) by (intros E; apply Hne; now apply (HU _ s)).
@@ -617,7 +635,7 @@ Proof.
   split; [intros c Hc; rewrite Hca; now apply G9|]. split; [exact G10|]. split; [exact G11|]. split; [exact G12|].
   split; [intros c e Hc He; rewrite Hca in He; now apply (G13 c)|]. split; [exact Hiok|]. split.
   - intros h s Hs. rewrite Htr in Hs. destruct (G15 h s Hs) as (r0 & L & Hrest). exists r0. rewrite Hlf. auto.
-  - intros k Hk. rewrite <- (G16 k Hk). apply abs_core. exact Hcore.
+  - intros k Hk. rewrite <- (G16 k Hk). apply absr_core. exact Hcore.
 Qed.
 
 Lemma gx_frame b' D stat' st : gc_dst st = D -> (forall c, chunk_at b' c = chunk_at (gc_b st) c) -> GX st -> GX (mkGC b' D stat').
@@ -643,7 +661,7 @@ Proof.
   split; [apply (iok_hints_same hf K b); [reflexivity|exact G14]|]. split.
   - intros h s Hs. change (tree_get_slot (set_chunk b src chunk0) h) with (tree_get_slot b h) in Hs.
     destruct (G15 h s Hs) as (r0 & L & A). exists r0. split; [|exact A]. rewrite log_find_set_other; [exact L|now apply (HnoS h s)].
-  - intros k Hk. rewrite <- (G16 k Hk). unfold abs. change (tree_get_slot (set_chunk b src chunk0) (hf k)) with (tree_get_slot b (hf k)).
+  - intros k Hk. rewrite <- (G16 k Hk). unfold absr. change (tree_get_slot (set_chunk b src chunk0) (hf k)) with (tree_get_slot b (hf k)).
     destruct (tree_get_slot b (hf k)) as [s|] eqn:Es; [|reflexivity]. rewrite log_find_set_other; [reflexivity|now apply (HnoS (hf k) s)].
 Qed.
 
@@ -730,6 +748,12 @@ Proof.
     apply (IH (S src) st1 HGn H2); [lia|exact Hsp].
 Qed.
 End GV2.
+
+(* the invariant pins every read: the index entry and the WHOLE record it points at are those of before the pass *)
+Lemma gi_same_entries cf hf K b0 st src R : GI cf hf K b0 st src R -> forall k, In k K -> absr hf (gc_b st) k = absr hf b0 k.
+Proof. intros H. apply H. Qed.
+Lemma gi_same_reads cf hf K b0 st src R : GI cf hf K b0 st src R -> forall k, In k K -> abs hf (gc_b st) k = abs hf b0 k.
+Proof. intros H k Hk. apply abs_of_absr. now apply (gi_same_entries cf hf K b0 st src R). Qed.
 
 (* ---- what one GC step does to the data files, whatever the tree says ---- *)
 Lemma hints_set_chunks cf b h key ver vh p rs gc c : chunk_at (hints_set cf b h key ver vh p rs gc) c = chunk_at b c.
@@ -845,6 +869,53 @@ Proof.
       * destruct (pos_eqb (mkPos ck (hi_off it)) oldp); cbn [negb]; [apply Hcopy|apply Hdrop].
       * cbn [negb]. apply Hcopy.
   - destruct (Nat.ltb 0 begin_ && (d_ver r <? 0)%Z); cbn [negb]; [apply Hcopy|apply Hdrop].
+Qed.
+
+(* ... and where a relocated slot points afterwards *)
+Lemma gc_record_slot cf hf begin_ src st off r :
+  let st' := gc_record cf hf begin_ src st (off, r) in let h := hf (d_key r) in
+  forall s, tree_get_slot (gc_b st) h = Some s ->
+    tree_get_slot (gc_b st') h = Some s \/
+    (s_pos s = mkPos src off /\
+     tree_get_slot (gc_b st') h = Some (mkSlot (mkPos (gc_dst st') (k_whead (chunk_at (gc_b st') (gc_dst st')) - dsize r)) (s_ver s) (s_vh s))).
+Proof.
+  cbv zeta. set (b := gc_b st). set (D := gc_dst st). set (h := hf (d_key r)). set (oldp := mkPos src off). intros s Hs.
+  assert (Hcopy : forall gs' vh (s0 : slot),
+     let st' := (let '(b1, dst) := if c_filemax cf <? dsize r + k_whead (chunk_at b D)
+                           then (begin_gc_writing (trydump (end_gc_writing b D) D true) (S D) src, S D) else (b, D) in
+         let '(b2, noff) := append_gc b1 dst r in
+         let b3 := match Some s0 with
+                   | Some _ => match tree_get_slot b2 h with
+                               | Some s => if gc_repoint_conditional && negb (pos_eqb (s_pos s) oldp) then b2
+                                           else tree_put b2 h (mkSlot (mkPos dst noff) (s_ver s) (s_vh s))
+                               | None => b2 end
+                   | None => b2 end in
+         mkGC (hints_set cf b3 h (d_key r) (d_ver r) vh (mkPos dst noff) (dsize r) true) dst gs') in
+     tree_get_slot (gc_b st') h = Some s \/
+     (s_pos s = oldp /\ tree_get_slot (gc_b st') h = Some (mkSlot (mkPos (gc_dst st') (k_whead (chunk_at (gc_b st') (gc_dst st')) - dsize r)) (s_ver s) (s_vh s)))).
+  { intros gs' vh s0. cbv zeta. pose proof (dsize_pos r) as Hsz.
+    assert (Hb1 : forall h', tree_get_slot (begin_gc_writing (trydump (end_gc_writing b D) D true) (S D) src) h' = tree_get_slot b h').
+    { intros h'. rewrite begin_gc_eq, end_gc_eq. change (tree_get_slot (set_chunk ?x ?c ?k) h') with (tree_get_slot x h').
+      rewrite (core_tree _ _ h' (trydump_core _ D true)). reflexivity. }
+    change gc_repoint_conditional with true. cbn [andb].
+    destruct (c_filemax cf <? dsize r + k_whead (chunk_at b D)); rewrite append_gc_eq; cbn [gc_b gc_dst]; rewrite hints_set_tree, hints_set_chunks.
+    - set (b1 := begin_gc_writing (trydump (end_gc_writing b D) D true) (S D) src) in *.
+      change (tree_get_slot (set_chunk b1 (S D) (append_gc_chunk (chunk_at b1 (S D)) r)) h) with (tree_get_slot b1 h). rewrite Hb1, Hs.
+      destruct (pos_eqb (s_pos s) oldp) eqn:Ep; cbn [negb].
+      + right. apply pos_eqb_eq in Ep. split; [exact Ep|]. rewrite tree_put_same. change (chunk_at (tree_put ?x h ?y) ?c) with (chunk_at x c).
+        rewrite chunk_at_set_same. unfold append_gc_chunk at 1. cbn [k_whead]. do 3 f_equal. lia.
+      + left. change (tree_get_slot (set_chunk b1 (S D) (append_gc_chunk (chunk_at b1 (S D)) r)) h) with (tree_get_slot b1 h). now rewrite Hb1.
+    - change (tree_get_slot (set_chunk b D (append_gc_chunk (chunk_at b D) r)) h) with (tree_get_slot b h). rewrite Hs.
+      destruct (pos_eqb (s_pos s) oldp) eqn:Ep; cbn [negb].
+      + right. apply pos_eqb_eq in Ep. split; [exact Ep|]. rewrite tree_put_same. change (chunk_at (tree_put ?x h ?y) ?c) with (chunk_at x c).
+        rewrite chunk_at_set_same. unfold append_gc_chunk at 1. cbn [k_whead]. do 3 f_equal. lia.
+      + left. change (tree_get_slot (set_chunk b D (append_gc_chunk (chunk_at b D) r)) h) with (tree_get_slot b h). exact Hs. }
+  unfold gc_record. fold b D h oldp. destruct (tree_get_slot b h) as [s1|] eqn:Es; [|discriminate]. injection Hs as ->.
+  destruct (pos_eqb oldp (s_pos s)) eqn:Ep.
+  - cbn [negb]. apply (Hcopy _ _ s).
+  - destruct (get_collision_gc b h (d_key r)) as [[[it ck]|] []]; try (cbn [negb]; left; exact Es).
+    + destruct (pos_eqb (mkPos ck (hi_off it)) oldp); cbn [negb]; [apply (Hcopy _ _ s)|left; exact Es].
+    + cbn [negb]. apply (Hcopy _ _ s).
 Qed.
 
 (* ---- offset order of the written part of a destination ---- *)
@@ -1424,7 +1495,7 @@ Proof.
         right. left. split; [exact E|]. replace (Nat.eqb dst0 begin_) with false by (symmetry; apply Nat.eqb_neq; congruence).
         rewrite log_find_gchunk in L by (rewrite E; apply (P2 dst0 Hdlt)). rewrite E in L. apply find_off_some_in in L.
         destruct (P2 dst0 Hdlt) as [(_ & _ & _ & Hsz) _]. rewrite Forall_forall in Hsz. specialize (Hsz _ L). unfold rend in Hsz. exact Hsz.
-    - intros k Hk. unfold abs. change (tree_get_slot b2 (hf k)) with (tree_get_slot b (hf k)).
+    - intros k Hk. unfold absr. change (tree_get_slot b2 (hf k)) with (tree_get_slot b (hf k)).
       destruct (tree_get_slot b (hf k)); [now rewrite Hlog2|reflexivity]. }
   assert (HX0 : GX b st0).
   { unfold GX. cbn [gc_b gc_dst st0]. fold H0. split.
@@ -1464,7 +1535,7 @@ Proof.
     + intros h s Hs. change (tree_get_slot b3 h) with (tree_get_slot be h) in Hs.
       destruct (G15 h s Hs) as (r0 & L & A1 & A2 & A3 & A4 & A5 & P). destruct (Hslot3 h s Hs) as (r1 & L1 & L3). rewrite L in L1. injection L1 as <-.
       exists r0. repeat (split; [assumption|]). exact A5.
-  - intros k Hk. rewrite <- (Habs k Hk), <- (G16 k Hk). unfold abs. change (tree_get_slot b3 (hf k)) with (tree_get_slot be (hf k)).
+  - intros k Hk. rewrite <- (Habs k Hk), <- (abs_of_absr hf be b k (G16 k Hk)). unfold abs. change (tree_get_slot b3 (hf k)) with (tree_get_slot be (hf k)).
     destruct (tree_get_slot be (hf k)) as [s|] eqn:Es; [|reflexivity]. destruct (Hslot3 _ s Es) as (r0 & L & L3). now rewrite L, L3.
 Qed.
 
@@ -1523,13 +1594,98 @@ Proof.
         right. left. split; [exact E|]. replace (Nat.eqb dst0 begin_) with false by (symmetry; apply Nat.eqb_neq; congruence).
         rewrite log_find_gchunk in L by (rewrite E; apply (P2 dst0 Hdlt)). rewrite E in L. apply find_off_some_in in L.
         destruct (P2 dst0 Hdlt) as [(_ & _ & _ & Hsz) _]. rewrite Forall_forall in Hsz. specialize (Hsz _ L). unfold rend in Hsz. exact Hsz.
-    - intros k Hk. unfold abs. change (tree_get_slot b2 (hf k)) with (tree_get_slot b (hf k)).
+    - intros k Hk. unfold absr. change (tree_get_slot b2 (hf k)) with (tree_get_slot b (hf k)).
       destruct (tree_get_slot b (hf k)); [now rewrite Hlog2|reflexivity]. }
   assert (HX0 : GX b st0).
   { unfold GX. cbn [gc_b gc_dst st0]. fold H0. split.
     - rewrite Hca2, Nat.eqb_refl. unfold begin_gc_chunk. destruct (Nat.eqb dst0 begin_); cbn [k_rewriting k_whead k_size]; [now left|now right].
     - intros c Hc Hne. rewrite Hca2. replace (Nat.eqb c dst0) with false by (symmetry; apply Nat.eqb_neq; exact Hne). apply Hok. }
   split; [exact HG0|]. split; [exact HX0|]. split; [exact Hdisk2|]. intros h. reflexivity.
+Qed.
+
+(* ... with all the invariants of the pass (GA) *)
+Lemma gc_pass_start_ga b m begin_ end_ :
+  Rel hf K b m -> GPre b -> (begin_ <= end_ < b_head b)%nat ->
+  let b1 := before_bucket cf b false in let dst0 := pick_dst cf b1 begin_ begin_ in
+  let W0 := if Nat.eqb dst0 begin_ then 0 else k_size (chunk_at b dst0) in
+  let st0 := mkGC (begin_gc_writing b1 dst0 begin_) dst0 gc0 in
+  GA cf hf K b begin_ dst0 W0 st0 begin_ (k_disk (chunk_at (gc_b st0) begin_)) /\
+  ((dst0 < begin_)%nat \/ W0 = 0) /\ (dst0 <= begin_)%nat /\
+  (forall c, k_disk (chunk_at (gc_b st0) c) = k_disk (chunk_at b c)) /\ (forall h, tree_get_slot (gc_b st0) h = tree_get_slot b h) /\
+  k_whead (chunk_at (gc_b st0) dst0) = W0 /\ (forall c, c <> dst0 -> chunk_at (gc_b st0) c = chunk_at b c).
+Proof.
+  intros HR (P2 & P3 & P4) Hrange. pose proof HR as [((Hok & Habove) & Hct & Hslots) Habs].
+  cbv zeta. set (H0 := b_head b).
+  set (b1 := before_bucket cf b false).
+  assert (Hcore1 : core b1 = core b) by reflexivity.
+  assert (Hhint1 : b_hints b1 = b_hints b) by reflexivity.
+  assert (Hca1 : forall c, chunk_at b1 c = chunk_at b c) by (intros c; reflexivity).
+  destruct (pick_dst_gap cf b1 begin_ begin_ (le_n _) ltac:(intros c Hc; lia)) as [Hd1 Hd2]. cbv zeta in Hd1, Hd2.
+  set (dst0 := pick_dst cf b1 begin_ begin_) in *.
+  rewrite begin_gc_eq. set (kd0 := chunk_at b1 dst0).
+  assert (Hdlt : (dst0 < H0)%nat) by (unfold H0; lia).
+  destruct (begin_gc_chunk_facts kd0 (Nat.eqb dst0 begin_)) as (B1 & B2 & B3 & B4 & B5); [apply (P2 dst0 Hdlt)|]. cbv zeta in B1, B2, B3, B4, B5.
+  set (b2 := set_chunk b1 dst0 (begin_gc_chunk kd0 (Nat.eqb dst0 begin_))).
+  assert (Hca2 : forall c, chunk_at b2 c = if Nat.eqb c dst0 then begin_gc_chunk kd0 (Nat.eqb dst0 begin_) else chunk_at b c).
+  { intros c. unfold b2. destruct (Nat.eqb_spec c dst0) as [->|Hne]; [apply chunk_at_set_same|]. rewrite chunk_at_set_other by congruence. apply Hca1. }
+  assert (Hdisk2 : forall c, k_disk (chunk_at b2 c) = k_disk (chunk_at b c)).
+  { intros c. rewrite Hca2. destruct (Nat.eqb_spec c dst0) as [->|]; [exact B3|reflexivity]. }
+  assert (Hlog2 : forall p, log_find b2 p = log_find b p).
+  { intros p. unfold log_find, all_recs. rewrite Hdisk2, Hca2. destruct (Nat.eqb_spec (p_chunk p) dst0) as [E|]; [|reflexivity].
+    rewrite (proj1 B1), E. fold kd0. now rewrite (proj1 (proj1 (P2 dst0 Hdlt))). }
+  set (st0 := mkGC b2 dst0 gc0).
+  assert (HW0 : k_whead (chunk_at b2 dst0) = if Nat.eqb dst0 begin_ then 0 else k_size kd0) by (rewrite Hca2, Nat.eqb_refl; exact B5).
+  (* the invariant holds when the pass starts *)
+  assert (HG0 : GI cf hf K b st0 begin_ (k_disk (chunk_at (gc_b st0) begin_))).
+  { unfold GI. cbn [gc_b gc_dst st0]. fold H0. rewrite HW0.
+    split; [reflexivity|]. split; [exact Hct|].
+    split; [intros c Hc; rewrite Hca2; replace (Nat.eqb c dst0) with false by (symmetry; apply Nat.eqb_neq; unfold H0 in *; lia); reflexivity|].
+    split; [intros c Hc; rewrite Hca2; destruct (Nat.eqb c dst0); [exact B1|apply (P2 c Hc)]|].
+    split; [exact Hd1|]. split; [unfold H0; lia|].
+    split; [rewrite Hca2, Nat.eqb_refl; exact B2|].
+    split; [rewrite Hca2, Nat.eqb_refl, B4; destruct (Nat.eqb dst0 begin_); lia|].
+    split.
+    { intros c Hc. rewrite Hca2. replace (Nat.eqb c dst0) with false by (symmetry; apply Nat.eqb_neq; lia).
+      pose proof (Hd2 c Hc) as Hs. rewrite Hca1 in Hs. split; [|exact Hs]. apply gchunk_size0'; [apply (P2 c); unfold H0; lia|exact Hs]. }
+    split; [auto|]. split; [intros E e He; rewrite E, Nat.eqb_refl; lia|].
+    split; [rewrite Hdisk2; apply (P2 begin_); unfold H0; lia|].
+    split; [intros c e Hc He; rewrite Hdisk2 in He; now apply (P3 c)|].
+    split; [apply (iok_hints_same hf K b); [reflexivity|exact P4]|]. split.
+    - intros h s Hs. change (tree_get_slot b2 h) with (tree_get_slot b h) in Hs.
+      destruct (Hslots h s Hs) as (r0 & L & A1 & A2 & A3 & A4 & A5). exists r0. rewrite Hlog2.
+      repeat (split; [assumption|]).
+      destruct (Nat.eq_dec (p_chunk (s_pos s)) begin_) as [E|Hnb].
+      + right. right. split; [exact E|]. rewrite Hdisk2.
+        rewrite log_find_gchunk in L by (rewrite E; apply (P2 begin_); unfold H0; lia). rewrite E in L. now apply find_off_some_in.
+      + destruct (Nat.eq_dec (p_chunk (s_pos s)) dst0) as [E|Hnd]; [|left; now split].
+        right. left. split; [exact E|]. replace (Nat.eqb dst0 begin_) with false by (symmetry; apply Nat.eqb_neq; congruence).
+        rewrite log_find_gchunk in L by (rewrite E; apply (P2 dst0 Hdlt)). rewrite E in L. apply find_off_some_in in L.
+        destruct (P2 dst0 Hdlt) as [(_ & _ & _ & Hsz) _]. rewrite Forall_forall in Hsz. specialize (Hsz _ L). unfold rend in Hsz. exact Hsz.
+    - intros k Hk. unfold absr. change (tree_get_slot b2 (hf k)) with (tree_get_slot b (hf k)).
+      destruct (tree_get_slot b (hf k)); [now rewrite Hlog2|reflexivity]. }
+  assert (HX0 : GX b st0).
+  { unfold GX. cbn [gc_b gc_dst st0]. fold H0. split.
+    - rewrite Hca2, Nat.eqb_refl. unfold begin_gc_chunk. destruct (Nat.eqb dst0 begin_); cbn [k_rewriting k_whead k_size]; [now left|now right].
+    - intros c Hc Hne. rewrite Hca2. replace (Nat.eqb c dst0) with false by (symmetry; apply Nat.eqb_neq; exact Hne). apply Hok. }
+  set (W0 := if Nat.eqb dst0 begin_ then 0 else k_size (chunk_at b dst0)).
+  assert (HW0' : k_whead (chunk_at b2 dst0) = W0) by (rewrite HW0; reflexivity).
+  assert (HC0 : GC2 hf begin_ dst0 W0 st0).
+  { intros c e Hin (Hr1 & Hr2 & Hr3). cbn [gc_b gc_dst st0] in *. assert (c = dst0) by lia. subst c. rewrite HW0' in Hr3.
+    specialize (Hr2 eq_refl). specialize (Hr3 eq_refl). unfold rend in Hr3. pose proof (dsize_pos (snd e)). lia. }
+  assert (HP0 : GP b dst0 W0 st0).
+  { unfold GP. cbn [gc_b gc_dst st0]. split; [lia|]. split; [intros _; rewrite HW0'; lia|]. split; [intros e _; now rewrite Hdisk2|].
+    intros e He. rewrite Hdisk2 in He. unfold W0. destruct (Nat.eqb dst0 begin_); [right; lia|left].
+    destruct (P2 dst0 Hdlt) as [(_ & _ & _ & Hsz) _]. rewrite Forall_forall in Hsz. exact (Hsz e He). }
+  assert (Hs0 : (dst0 < begin_)%nat \/ W0 = 0).
+  { unfold W0. destruct (Nat.eqb_spec dst0 begin_) as [E|Hne]; [now right|left; lia]. }
+  assert (HS0 : GS dst0 st0).
+  { unfold GS. cbn [gc_b gc_dst st0]. split; [intros c Hc; lia|]. unfold below. rewrite Hdisk2, HW0'. unfold W0.
+    destruct (P2 dst0 Hdlt) as [(_ & _ & _ & Hsz) Hsp]. destruct (Nat.eqb dst0 begin_).
+    - rewrite filter_nil_all; [constructor|]. intros x _. pose proof (dsize_pos (snd x)). unfold rend. lia.
+    - rewrite filter_id_all; [exact Hsp|]. intros x Hx. rewrite Forall_forall in Hsz. specialize (Hsz x Hx). cbv beta in Hsz. apply N.leb_le. exact Hsz. }
+  split; [split; [exact HG0|split; [exact HX0|split; [exact HC0|split; [exact HP0|exact HS0]]]]|].
+  split; [exact Hs0|]. split; [exact Hd1|]. split; [exact Hdisk2|]. split; [intros h; reflexivity|]. split; [exact HW0'|].
+  intros c Hc. rewrite Hca2. now replace (Nat.eqb c dst0) with false by (symmetry; apply Nat.eqb_neq; exact Hc).
 Qed.
 
 (* C18: what the files written by the pass contain afterwards *)
@@ -1545,7 +1701,8 @@ Theorem gc_pass_reclaims b m begin_ end_ :
     (forall e, rend e <= W0 -> (In e (k_disk (chunk_at b' dst0)) <-> In e (k_disk (chunk_at b dst0)))) /\
     (forall e, In e (k_disk (chunk_at b' dst0)) -> rend e <= W0 \/ W0 <= fst e) /\
     (forall c, (c < b_head b)%nat -> gchunk (chunk_at b' c)) /\
-    GPre b'.
+    GPre b' /\
+    D = gc_dst (fold_left (gc_file cf hf begin_) (seq begin_ (S end_ - begin_)) (mkGC (begin_gc_writing (before_bucket cf b false) dst0 begin_) dst0 gc0)).
 Proof.
   intros HR (P2 & P3 & P4) Hrange. pose proof HR as [((Hok & Habove) & Hct & Hslots) Habs].
   cbv zeta. unfold gc_pass. cbn [fst]. set (H0 := b_head b).
@@ -1594,7 +1751,7 @@ Proof.
         right. left. split; [exact E|]. replace (Nat.eqb dst0 begin_) with false by (symmetry; apply Nat.eqb_neq; congruence).
         rewrite log_find_gchunk in L by (rewrite E; apply (P2 dst0 Hdlt)). rewrite E in L. apply find_off_some_in in L.
         destruct (P2 dst0 Hdlt) as [(_ & _ & _ & Hsz) _]. rewrite Forall_forall in Hsz. specialize (Hsz _ L). unfold rend in Hsz. exact Hsz.
-    - intros k Hk. unfold abs. change (tree_get_slot b2 (hf k)) with (tree_get_slot b (hf k)).
+    - intros k Hk. unfold absr. change (tree_get_slot b2 (hf k)) with (tree_get_slot b (hf k)).
       destruct (tree_get_slot b (hf k)); [now rewrite Hlog2|reflexivity]. }
   assert (HX0 : GX b st0).
   { unfold GX. cbn [gc_b gc_dst st0]. fold H0. split.
@@ -1659,7 +1816,7 @@ Proof.
   destruct (gc_pass_touches_only cf hf b begin_ end_ false) as (_ & _ & [_ Hunt]). cbv zeta in Hunt. unfold gc_pass in Hunt. cbn [fst] in Hunt.
   fold b1 dst0 in Hunt. rewrite begin_gc_eq in Hunt. fold kd0 b2 st0 st be D in Hunt. rewrite end_gc_eq in Hunt. fold b3 in Hunt.
   assert (Hhd : b_head (trydump b3 D true) = H0) by (rewrite (core_head _ _ Hcore); exact G1).
-  split; [|split].
+  split; [|reflexivity]. split; [|split].
   - intros c Hc. rewrite Hhd in Hc. split; [apply (Hgch c Hc)|].
     destruct (Nat.lt_ge_cases c dst0) as [Hlo|Hge]; [rewrite Hunt by lia; apply (P2 c Hc)|].
     destruct (Nat.lt_ge_cases end_ c) as [Hhi|Hle]; [rewrite Hunt by lia; apply (P2 c Hc)|].
@@ -1708,7 +1865,7 @@ Corollary gc_pass_again_ok b m begin_ end_ :
   let b' := fst (gc_pass cf hf b begin_ end_ false) in Rel hf K b' m /\ GPre b' /\ b_head b' = b_head b.
 Proof.
   intros HR HP Hrange. cbv zeta. split; [now apply gc_pass_view|]. split.
-  - destruct (gc_pass_reclaims b m begin_ end_ HR HP Hrange) as (D & _ & _ & _ & _ & _ & _ & _ & Hg). exact Hg.
+  - destruct (gc_pass_reclaims b m begin_ end_ HR HP Hrange) as (D & _ & _ & _ & _ & _ & _ & _ & Hg & _). exact Hg.
   - destruct (gc_pass_touches_only cf hf b begin_ end_ false) as (_ & _ & [Hh _]). exact Hh.
 Qed.
 
